@@ -11,7 +11,7 @@ func init() {
 		ID:  "C05",
 		Run: runC05,
 		Meta: propMeta{
-			Explanation: "Static lock discipline of kvstore/mapdb on all CFG paths: the shared map is only touched under its RWMutex (writes under the write lock), batch maps under the batch mutex; iteration takes its snapshot in exactly one read-locked section and invokes the consumer only after releasing it; every acquired mutex is released on every exit; the lock-class order graph of the package (with transitive callee summaries) is acyclic and no held mutex is re-acquired; the closed flag is touched only through atomic methods and realm is never written after construction. These are necessary conditions of linearizability/deadlock freedom/race freedom for every schedule; linearizability of histories as such is not decided. Also: no guarded map or slice is returned by reference from inside its critical section; stored values cross the map boundary only through copying calls (rule shared with C04).",
+			Explanation: "Static lock discipline of kvstore/mapdb on all CFG paths: the shared map is only touched under its RWMutex (writes under the write lock), batch maps under the batch mutex; iteration takes its snapshot in exactly one read-locked section and invokes the consumer only after releasing it; every acquired mutex is released on every exit; the lock-class order graph of the package (with transitive callee summaries) is acyclic and no held mutex is re-acquired; the closed flag is touched only through atomic methods and realm is never written after construction. These are necessary conditions of linearizability/deadlock freedom/race freedom for every schedule; linearizability of histories as such is not decided. Also: no guarded map or slice is returned by reference from inside its critical section; stored values cross the map boundary only through copying calls (rule shared with C04). The view operations never use their consumer while a mutex is held.",
 			NotDecided:  "linearizability of histories; Go memory model beyond 'every shared access is under the tabled lock or an atomic'",
 			Assumptions: []string{"sync.RWMutex/atomic.Bool behave as documented", "lock identity is by access path (receiver + field chain); receivers and bases are single-assignment in the analysed functions"},
 		},
